@@ -805,17 +805,23 @@ namespace
                 if (a.data<d_scalar, float>() > b.data<d_scalar, float>()) return !sort_flag;
                 return false;
             }
-            return !sort_flag;
+            return false;
             });
 
         return {};
     }
     value resize_array_scalar(runtime& runtime, value::cref left, value::cref right)
     {
-        auto i = right.data<d_scalar, size_t>();
-        if (i < 0)
-        {
+        auto f = right.data<d_scalar, float>();
+        if (!(f >= 0))
+        { // negative or NaN
             runtime.__logmsg(err::NegativeSize(runtime.context_active().current_frame().diag_info_from_position()));
+            return {};
+        }
+        auto i = right.data<d_scalar, size_t>();
+        if (i > d_array::max_size)
+        {
+            runtime.__logmsg(err::IndexOutOfRange(runtime.context_active().current_frame().diag_info_from_position(), d_array::max_size, i));
             return {};
         }
         left.data<d_array>()->resize(i);
@@ -1244,6 +1250,11 @@ namespace
         if (index < 0)
         {
             runtime.__logmsg(err::NegativeIndex(runtime.context_active().current_frame().diag_info_from_position()));
+            return {};
+        }
+        if (static_cast<size_t>(index) >= d_array::max_size)
+        {
+            runtime.__logmsg(err::IndexOutOfRange(runtime.context_active().current_frame().diag_info_from_position(), d_array::max_size, index));
             return {};
         }
         auto val = params[1];
